@@ -62,6 +62,10 @@ type regexAST struct {
 }
 
 func (r *regexAST) String() string {
+	if r == nil {
+		// an empty group, "(?P<name>)": the grammar leaves the tail out
+		return ""
+	}
 	res := make([]string, len(r.RegexPart))
 	for i, r := range r.RegexPart {
 		res[i] = r.String()
@@ -75,6 +79,9 @@ func (r *regexAST) isNonCapturing() bool {
 }
 
 func (r *regexAST) collectGroupNames(init []string) []string {
+	if r == nil {
+		return init
+	}
 	for _, p := range r.RegexPart {
 		init = p.collectGroupNames(init)
 	}
